@@ -40,6 +40,7 @@ LEVEL = {
     "technique": "static analysis: effect-freedom, escape, exactly-once path and typestate (single-use) rules; islice table by abstract evaluation",
 }
 LEVEL["decided"] += ' (R08.7) inside the block every tool leaves a shared iterator where the stdlib tool would (tool tables: yields, items taken, end); (R08.8) no tool reads ahead of what it yields (R05.3, shared).'
+LEVEL["decided"] += ' (R08.9) a groupby group the parent has moved past leaves the shared iterator alone (R16.1, shared); (R08.10) a finishing tee child unregisters its own buffer by identity (R04.5, shared).'
 LEVEL["technique"] += '; tool tables shared'
 
 CTX = "asynctools._ScopedAsyncIteratorContext"
